@@ -132,6 +132,8 @@ type Ctx struct {
 	axiomsDone  map[string]bool
 	// tid: identifier of a Go type (for objtype facts); nil outside function verification
 	tid func(types.Type) int
+	// standalone: the named struct type is only ever allocated as a whole object
+	standalone func(*types.Named) bool
 }
 
 type lazyFrame struct {
